@@ -10,7 +10,7 @@
    invoker answers "skipped:work-bound" and the entry answers class "skipped" (counted apart: neither an evaluation nor a pass);
    a "skipped" marker for a case that is within the bound is a bad case. *)
 From Coq Require Import ZArith String List Bool.
-From SID Require Import Base Str Ids ZoomCore Wire Merge MergeCheck MergeIdem MergeApi MergeHelpers.
+From SID Require Import Base Str Ids ZoomCore Wire Merge MergeCheck MergeIdem MergeApi MergeHelpers MergeHistory.
 Import ListNotations.
 Open Scope string_scope.
 
@@ -197,7 +197,65 @@ Definition d_helpers (args : list val) (obs : val) : verdict :=
   | _ => bad_case
   end.
 
+(* ---- MergeHistory: a sequence of calls performed back to back in one invocation (the argument slice is one reused caller buffer;
+   between the calls the caller scribbles over its argument slice, over the returned slice, and over objects it parsed itself, as the
+   step's flags say). The model is pure (MergeHistory.history_independent): every step is judged exactly like a standalone call by
+   the entry of its function; the case fails if any step fails. step = [kind; ids; a; b; flags], kind "ext" (ids, H, V),
+   "sid" (ids, z, -), "higher" ([id], hDiff, vDiff). ---- *)
+Definition step_args (v : val) : option (string * list val) :=
+  match v with
+  | VL [VS k; VL ids; VZ a; VZ b; VZ _] =>
+      if String.eqb k "ext" then Some (k, [VL ids; VZ a; VZ b])
+      else if String.eqb k "sid" then Some (k, [VL ids; VZ a])
+      else if String.eqb k "higher" then match ids with [VS id] => Some (k, [VS id; VZ a; VZ b]) | _ => None end
+      else None
+  | _ => None
+  end.
+Definition step_runnable (ka : string * list val) : bool :=
+  match ka with
+  | (k, [ids; VZ a; VZ b]) => if String.eqb k "ext" then match as_LS ids with Some l => runnable l a b | None => true end else true
+  | (k, [ids; VZ z]) => match as_LS ids with
+                        | Some l => runnable (match sids_to_eids l with Ok e => e | Err => [] end) z z
+                        | None => true
+                        end
+  | _ => true
+  end.
+Definition step_verdict (ka : string * list val) (o : val) : verdict :=
+  let '(k, a) := ka in
+  if String.eqb k "ext" then d_merge_ext a o else if String.eqb k "sid" then d_merge_sid a o else d_higher a o.
+Fixpoint steps_verdict (l : list (string * list val)) (os : list val) : option (bool * bool * list val) :=
+  match l, os with
+  | [], [] => Some (true, true, [])
+  | ka :: l', o :: os' =>
+      let v := step_verdict ka o in
+      if String.eqb (v_class v) "-" then
+        match steps_verdict l' os' with
+        | Some (c, p, ms) => Some (v_corr v && c, v_prop v && p, v_model v :: ms)
+        | None => None
+        end
+      else None
+  | _, _ => None
+  end.
+Definition d_history (args : list val) (obs : val) : verdict :=
+  match args with
+  | [VL steps] =>
+      match all_opt (map step_args steps) with
+      | Some l =>
+          if (Nat.leb (List.length l) 12) then
+            if forallb step_runnable l then
+              match obs with
+              | VL os => match steps_verdict l os with Some (c, p, ms) => mkv c p "-" (VL ms) | None => bad_case end
+              | _ => bad_case
+              end
+            else skip_or_bad obs
+          else bad_case
+      | None => bad_case
+      end
+  | _ => bad_case
+  end.
+
 Definition table_C04 : table :=
   [("MergeExtendedSpatialIds", fun _ => d_merge_ext); ("MergeSpatialIds", fun _ => d_merge_sid); ("Higher", fun _ => d_higher);
    ("MergeTwice", fun _ => d_merge_twice); ("MergeShifted", fun _ => d_merge_shifted);
+   ("MergeHistory", fun _ => d_history);
    ("HighSpatialIDOps", fun _ => d_helpers); ("MergeHelperSequence", fun _ => d_helpers)].
